@@ -89,7 +89,10 @@ extern int mpt_parse_format_pre(const MPT_STRUCT(parser_format) *fmt, MPT_STRUCT
 		}
 		/* comments: continue to line end without save */
 		if (MPT_iscomment(fmt, curr)) {
-			(void) mpt_parse_endline(&parse->src);
+			/* input ends inside comment */
+			if ((curr = mpt_parse_endline(&parse->src)) < 0) {
+				break;
+			}
 			/* line end reached: section start may follow as for name on separate line */
 			curr = mpt_parse_nextvis(&parse->src, fmt->com, sizeof(fmt->com));
 			if (mpt_path_addchar(path, curr) < 0) {
